@@ -56,11 +56,13 @@ def build(values):
         gql.enum("Before", ["B_ONE", "B_TWO", "B_THREE", "B_FOUR", "B_FIVE", "B_SIX"]),
         gql.enum("E", values),
         gql.enum("Zlast", ["Z_ONE", "Z_TWO"]),
-        gql.inp("In", [("e", "E")]),
-        gql.obj("Q", [FieldDef("e", "E!"), FieldDef("f", "Int", args=[("a", "E"), ("i", "In")]), FieldDef("before", "Before"), FieldDef("zlast", "Zlast")]),
+        # (an input field with the first value as its schema default, a list of the enum on both sides)
+        gql.inp("In", [("e", "E"), FieldDef("d", "E", default=values[0]), ("many", "[E!]")]),
+        gql.obj("Q", [FieldDef("e", "E!"), FieldDef("es", "[E]"), FieldDef("f", "Int", args=[("a", "E"), ("i", "In"), ("l", "[E]")]),
+                      FieldDef("before", "Before"), FieldDef("zlast", "Zlast")]),
     ], {"query": "Q"})
-    doc = Doc([Op("query", "Op", [Field("e"), Field("f", args=[("a", "$a"), ("i", "$i")]), Field("before"), Field("zlast")],
-                  [("a", "E", None), ("i", "In", None)])])
+    doc = Doc([Op("query", "Op", [Field("e"), Field("es"), Field("f", args=[("a", "$a"), ("i", "$i"), ("l", "$l")]), Field("before"), Field("zlast")],
+                  [("a", "E", None), ("i", "In", None), ("l", "[E]", None)])])
     return schema, doc
 
 
@@ -113,11 +115,11 @@ def run(tier):
                 rep.violation("does_not_compile", m["label"], [(e["code"], e["message"][:150]) for e in fc.errors[:2]], m["sigs"])
             continue
         for s in strings_for(m["values"]):
-            reqs.append({"case": m["case"], "module": "op", "what": "resp", "arg": {"e": s}})
+            reqs.append({"case": m["case"], "module": "op", "what": "resp", "arg": {"e": s, "es": [s, None, m["values"][0]]}})
             meta.append((m, "response", s))
             reqs.append({"case": m["case"], "module": "op", "what": "dbg", "arg": {"e": s}})
             meta.append((m, "debug", s))
-            reqs.append({"case": m["case"], "module": "op", "what": "vars", "arg": {"a": s, "i": {"e": s}}})
+            reqs.append({"case": m["case"], "module": "op", "what": "vars", "arg": {"a": s, "i": {"e": s, "d": s, "many": [s]}, "l": [s, None]}})
             meta.append((m, "variables", s))
         for s2, key in (("B_ONE", "before"), ("B_SIX", "before"), ("Z_ONE", "zlast"), ("Z_TWO", "zlast"), ("B_ONE", "zlast"), (m["values"][0], "before")):
             reqs.append({"case": m["case"], "module": "op", "what": "resp", "arg": {"e": m["values"][0], key: s2}})
@@ -147,12 +149,14 @@ def run(tier):
             if got != s:
                 rep.violation("enum_string_changed", label, {"serialised": got}, m["sigs"])
         elif pos == "response":
-            got = json.loads(r["out"]).get("e")
-            if got != s:
-                rep.violation("enum_string_changed", label, {"serialised": got}, m["sigs"])
+            o = json.loads(r["out"])
+            got = o.get("e")
+            if got != s or o.get("es") != [s, None, m["values"][0]]:
+                rep.violation("enum_string_changed", label, {"serialised": got, "list": o.get("es")}, m["sigs"])
         elif pos == "variables":
             v = json.loads(r["out"])["variables"]
-            if v.get("a") != s or (v.get("i") or {}).get("e") != s:
+            i = v.get("i") or {}
+            if v.get("a") != s or i.get("e") != s or i.get("d") != s or i.get("many") != [s] or v.get("l") != [s, None]:
                 rep.violation("enum_string_changed", label, {"serialised": v}, m["sigs"])
         else:
             dbg = r["out"]
